@@ -27,7 +27,7 @@ package cache
 //@   immutable resp, storedTime, expirationTime
 //@   invariant self.resp != nil
 // the stored message is owned by the cache entry (C10: only copies are handed out), so facts about it are stable
-//@   invariant noOPT(self.resp.Extra) && okRRs(self.resp.Extra)
+//@   invariant atMostOneOPT(self.resp.Extra) && okRRs(self.resp.Extra)
 
 //@ func min [C05]
 //@   ensures result == ite(a < b, a, b)
@@ -61,7 +61,7 @@ package cache
 //@   ensures forall h *dns.RR_Header :: wasallocated(h) ==> h.Ttl == old(h.Ttl)
 //@   ensures result_0 != nil ==> fresh(result_0) && (len(result_0.Question) > 0 ==> fresh(result_0.Question.ref))
 //@   ensures result_1 ==> result_0 != nil
-//@   ensures result_0 != nil ==> noOPT(result_0.Extra) && okRRs(result_0.Extra) && wfMsg(result_0)
+//@   ensures result_0 != nil ==> atMostOneOPT(result_0.Extra) && okRRs(result_0.Extra) && wfMsg(result_0)
 //@   ensures calls(cacheGet) == 1 && arg(cacheGet, 0, 0) == backend
 //@   ensures ret(cacheGet, 0, 0) == nil ==> result_0 == nil && !result_1 && calls(msgCopy) == 0
 //@   ensures ret(cacheGet, 0, 0) != nil ==> calls(timeNow) == 1
@@ -190,3 +190,53 @@ package cache
 //@   ensures calls(writeBlock) <= 1 && (calls(writeBlock) == 1 ==> result == ret(writeBlock, 0))
 // entryOf: the dump entry e carries key k and the three times (whole seconds) of a cache entry
 //@ spec func entryOf(e *CachedEntry, k key, stored int, msgExp int, cacheExp int) bool = e != nil && len(e.Key) == len(k) && (forall i int :: 0 <= i && i < len(k) ==> e.Key[i] == k[i]) && e.MsgStoredTime == stored / 1000000000 && e.MsgExpirationTime == msgExp / 1000000000 && e.CacheExpirationTime == cacheExp / 1000000000
+
+// one block of readDump: the allocation for the block body is bounded by 1 MiB BEFORE it is made;
+// every read / decode error is reported (only EOF on the block header yields the end marker);
+// every pool buffer taken is released; each decoded entry is stored exactly once, under its key,
+// with the three times it carries and the unpacked message.
+//@ func (c *Cache) readDump$1 [C19]
+//@   log readBlock
+//@   wraparound
+//@   requires c != nil && c.backend != nil && gr != nil && errReadHeaderEOF != nil
+//@   modifies *
+//@   ensures calls(GetBuf) >= 1 && calls(GetBuf) <= 2 && calls(ReleaseBuf) == calls(GetBuf)
+//@   ensures calls(GetBuf) == 2 ==> calls(beUint64) == 1 && arg(GetBuf, 1, 0) == ret(beUint64, 0) && arg(GetBuf, 1, 0) <= 1048576
+//@   ensures calls(beUint64) == 1 && ret(beUint64, 0) > 1048576 ==> result != nil && calls(GetBuf) == 1
+//@   ensures ret(ReadFull, 0, 1) != nil ==> result != nil && calls(GetBuf) == 1
+//@   ensures calls(ReadFull) == 2 && ret(ReadFull, 1, 1) != nil ==> result != nil && calls(protoUnmarshal) == 0
+//@   ensures calls(protoUnmarshal) == 1 && ret(protoUnmarshal, 0) != nil ==> result != nil && calls(cacheStore) == 0
+//@   loop 0:
+//@     invariant c != nil && 0 <= it0
+//@     each iter_calls(msgUnpack) == 1 && iter_calls(cacheStore) == 1 && iter_ret(msgUnpack, 0) == nil && iter_arg(cacheStore, 0, 0) == c.backend
+//@     each entry != nil ==> iter_arg(cacheStore, 0, 3).ns == entry.CacheExpirationTime * 1000000000 && len(iter_arg(cacheStore, 0, 1)) == len(entry.Key)
+//@     each entry != nil ==> iter_atcall(cacheStore, 0, iter_arg(cacheStore, 0, 2).storedTime.ns == entry.MsgStoredTime * 1000000000 && iter_arg(cacheStore, 0, 2).expirationTime.ns == entry.MsgExpirationTime * 1000000000 && iter_arg(cacheStore, 0, 2).resp == iter_arg(msgUnpack, 0, 0)) && fresh(iter_arg(msgUnpack, 0, 0))
+
+//@ func (x *CacheDumpBlock) Reset
+//@   nobody
+//@   log blockReset
+//@   modifies *
+
+// writeBlock: a block is the 8-byte big-endian length of the marshalled block followed by exactly
+// those bytes; a marshal or write error is reported and stops the block.
+//@ func (c *Cache) writeDump$1 [C19]
+//@   wraparound
+//@   requires gw != nil && block != nil
+//@   modifies *
+//@   ensures calls(protoMarshal) == 1
+//@   ensures ret(protoMarshal, 0, 1) != nil ==> result != nil && calls(gzWrite) == 0
+//@   ensures ret(protoMarshal, 0, 1) == nil ==> calls(gzWrite) >= 1 && len(arg(gzWrite, 0, 1)) == 8
+//@   ensures calls(gzWrite) == 2 ==> arg(gzWrite, 1, 1) == ret(protoMarshal, 0, 0)
+//@   ensures calls(gzWrite) >= 1 && ret(gzWrite, 0, 1) != nil ==> result != nil && calls(gzWrite) == 1
+//@   ensures calls(gzWrite) == 2 && ret(gzWrite, 1, 1) != nil ==> result != nil
+//@   ensures result == nil ==> calls(gzWrite) == 2 && calls(blockReset) == 1 && ret(protoMarshal, 0, 1) == nil
+
+// readDump: blocks are read until one fails; only the end marker (EOF exactly at a block boundary)
+// ends the load without error — any other read or decode error is returned to the caller.
+//@ func (c *Cache) readDump [C19]
+//@   requires c != nil && c.backend != nil
+//@   modifies *
+//@   ensures calls(readBlock) >= 1 ==> (result_1 == nil ==> lastret(readBlock) != nil)
+//@   loop 0:
+//@     invariant c != nil
+//@     each iter_calls(readBlock) == 1 && iter_ret(readBlock, 0) == nil
